@@ -1,13 +1,12 @@
 // Package c15 binds spec/partitionring (C15) to the real partition ring of dskit:
 //
-//	TestReplayRoute   - rings enumerated by PartitionRingGen.tla (Mode "route") -> PartitionRing.ActivePartitionForKey,
-//	                    ActivePartitionBatchRing.Get / GetKeysByPartition
-//	TestReplayRepl    - owner / instance-ring combinations (Mode "repl", "multi") -> PartitionInstanceRing.GetReplicationSetsForOperation,
-//	                    MultiPartitionInstanceRing.GetReplicationSetForPartitionAndOperation (under the synctest clock)
-//	TestRecordRoutes  - seeded random rings of 1..20 partitions with generated tokens; the real answers are written
-//	                    rank-compressed for PartitionRingCheck.tla to decide
-//	TestRecordTrace   - real PartitionInstanceLifecyclers + PartitionRingEditor on one in-memory consul store, every
-//	                    CAS recorded for PartitionRingTrace.tla (trace_test.go)
+//	TestReplay  - every case enumerated by PartitionRingGen.tla: rings (mode "route") -> PartitionRing.ActivePartitionForKey,
+//	              ActivePartitionBatchRing.Get / GetKeysByPartition; owner / instance-ring combinations (modes "repl", "multi") ->
+//	              PartitionInstanceRing.GetReplicationSetsForOperation, MultiPartitionInstanceRing.GetReplicationSetForPartitionAndOperation
+//	              (under the synctest clock, so heartbeat ages are exact)
+//	TestRecord  - (a) seeded random rings of 1..20 partitions with generated tokens; the real answers are written rank-compressed
+//	              for PartitionRingCheck.tla to decide; (b) real PartitionInstanceLifecyclers + PartitionRingEditor on one in-memory
+//	              consul store, every CAS recorded for PartitionRingTrace.tla (trace_test.go)
 package c15
 
 import (
@@ -86,20 +85,20 @@ func routeSig(what string, c *routeCase, class int, key uint32) string {
 	return fmt.Sprintf("route:%s key=%s keyOnToken=%v active=%d nonActive=%d", what, kc, tokHere, min(active, 2), min(nonActive, 2))
 }
 
-func TestReplayRoute(t *testing.T) {
-	in := os.Getenv("VERIF_IN")
-	nk := abs.EnvInt("VERIF_NK", 0)
-	var gaps []int
-	_ = json.Unmarshal([]byte(os.Getenv("VERIF_GAPS")), &gaps)
-	if in == "" || nk == 0 {
-		t.Skip("VERIF_IN / VERIF_NK not set")
-	}
-	corrupt := abs.EnvInt("VERIF_CORRUPT", 0) // self-test: falsify one expected output
-	classes := abs.KeyClasses(nk, gaps)
-	res := &abs.Result{}
-	now := time.Now()
+type replayer struct {
+	res     *abs.Result
+	nk      int
+	classes [][]uint32
+	hbT     int
+	corrupt int // self-test: falsify the expected output of this case (1-based), 0 = none
+	now     time.Time
+	counts  map[string]int
+}
+
+func (rp *replayer) route(line []byte) error {
+	res, nk, classes, corrupt, now := rp.res, rp.nk, rp.classes, rp.corrupt, rp.now
 	ctx := context.Background()
-	err := abs.ReadNDJSON(in, func(line []byte) error {
+	{
 		var c routeCase
 		if err := json.Unmarshal(line, &c); err != nil {
 			return err
@@ -222,15 +221,12 @@ func TestReplayRoute(t *testing.T) {
 		if nonActiveWithTokens > 0 {
 			res.Nontrivial++
 		}
-		if res.Cases%4099 == 1 {
+		if rp.counts["route"]%4099 == 0 {
 			res.Sample(map[string]any{"mode": "route", "case": c})
 		}
+		rp.counts["route"]++
 		return nil
-	})
-	if err != nil {
-		res.Fatal = err.Error()
 	}
-	res.Write(t)
 }
 
 // ---------------------------------------------------------------------------------------------
@@ -255,6 +251,8 @@ type replSetJ struct {
 }
 
 type replCase struct {
+	Mode    string                     `json:"mode"`
+	NP      int                        `json:"np"`
 	OwnerOf []int                      `json:"ownerOf"`
 	Inst    []instJ                    `json:"inst"`
 	Res     map[string]json.RawMessage `json:"res"`
@@ -290,24 +288,16 @@ func sameStrings(a, b []string) bool {
 	return true
 }
 
-func TestReplayRepl(t *testing.T) {
-	in := os.Getenv("VERIF_IN")
-	mode := os.Getenv("VERIF_MODE") // repl | multi
-	np := abs.EnvInt("VERIF_NP", 0)
-	hbT := abs.EnvInt("VERIF_T", 2)
-	if in == "" || np == 0 {
-		t.Skip("VERIF_IN / VERIF_NP not set")
-	}
-	corrupt := abs.EnvInt("VERIF_CORRUPT", 0)
-	res := &abs.Result{}
-	synctest.Test(t, func(t *testing.T) {
-		now := time.Now() // frozen while the code under test runs: heartbeat ages are exact
-		err := abs.ReadNDJSON(in, func(line []byte) error {
+func (rp *replayer) repl(line []byte) error {
+	res, hbT, corrupt, now := rp.res, rp.hbT, rp.corrupt, rp.now
+	{
+		{
 			var c replCase
 			if err := json.Unmarshal(line, &c); err != nil {
 				return err
 			}
 			res.Cases++
+			mode, np := c.Mode, c.NP
 			no := len(c.OwnerOf)
 			names := make([]string, no+1)
 			idesc := ring.NewDesc()
@@ -454,16 +444,52 @@ func TestReplayRepl(t *testing.T) {
 			if unhealthyOrUnknown {
 				res.Nontrivial++
 			}
-			if res.Cases%2003 == 1 {
+			if rp.counts[mode]%2003 == 0 {
 				res.Sample(map[string]any{"mode": mode, "case": c})
 			}
+			rp.counts[mode]++
 			if res.Fatal != "" {
 				return errors.New(res.Fatal)
 			}
 			return nil
+		}
+	}
+}
+
+// TestReplay replays every case TLC emitted (all modes of PartitionRingGen.tla) under the synctest
+// clock: time.Now() is frozen while the code under test runs, so heartbeat ages are exact.
+func TestReplay(t *testing.T) {
+	in := os.Getenv("VERIF_IN")
+	nk := abs.EnvInt("VERIF_NK", 0)
+	var gaps []int
+	_ = json.Unmarshal([]byte(os.Getenv("VERIF_GAPS")), &gaps)
+	if in == "" || nk == 0 {
+		t.Skip("VERIF_IN / VERIF_NK not set")
+	}
+	res := &abs.Result{}
+	synctest.Test(t, func(t *testing.T) {
+		rp := &replayer{res: res, nk: nk, classes: abs.KeyClasses(nk, gaps), hbT: abs.EnvInt("VERIF_T", 2),
+			corrupt: abs.EnvInt("VERIF_CORRUPT", 0), now: time.Now(), counts: map[string]int{}}
+		err := abs.ReadNDJSON(in, func(line []byte) error {
+			var m struct {
+				Mode string `json:"mode"`
+			}
+			if err := json.Unmarshal(line, &m); err != nil {
+				return err
+			}
+			switch m.Mode {
+			case "route":
+				return rp.route(line)
+			case "repl", "multi":
+				return rp.repl(line)
+			}
+			return fmt.Errorf("unknown case mode %q", m.Mode)
 		})
 		if err != nil && res.Fatal == "" {
 			res.Fatal = err.Error()
+		}
+		for k, v := range rp.counts {
+			res.AddExtra("replayed "+k, v)
 		}
 	})
 	res.Write(t)
@@ -481,22 +507,33 @@ type recRoute struct {
 	Grp  []int `json:"grp"`  // GetKeysByPartition: partition per key index, -1 = error
 }
 
-func TestRecordRoutes(t *testing.T) {
-	outp := os.Getenv("VERIF_CASES")
-	if outp == "" {
-		t.Skip("VERIF_CASES not set")
+// TestRecord records both code -> spec inputs in one process: the random-ring lookups
+// (VERIF_CASES) and the lifecycler/editor traces (VERIF_TRACE_DIR).
+func TestRecord(t *testing.T) {
+	if os.Getenv("VERIF_CASES") == "" || os.Getenv("VERIF_TRACE_DIR") == "" {
+		t.Skip("VERIF_CASES / VERIF_TRACE_DIR not set")
 	}
+	res := &abs.Result{}
+	recordRoutes(res)
+	if res.Fatal == "" {
+		recordTrace(t, res)
+	}
+	res.Write(t)
+}
+
+func recordRoutes(res *abs.Result) {
+	outp := os.Getenv("VERIF_CASES")
 	n := abs.EnvInt("VERIF_N", 40)
-	corrupt := abs.EnvInt("VERIF_CORRUPT", 0)
+	corrupt := abs.EnvInt("VERIF_CORRUPT_RING", 0)
 	rnd := rand.New(rand.NewSource(abs.Seed()*7919 + 15))
 	w, err := abs.NewNDJSONWriter(outp)
-	res := &abs.Result{}
 	if err != nil {
 		res.Fatal = err.Error()
-		res.Write(t)
 		return
 	}
 	now := time.Now()
+	rings := 0
+	defer func() { res.AddExtra("recorded_rings", rings) }()
 	for id := 1; id <= n; id++ {
 		np := 1 + rnd.Intn(20)
 		if id <= 20 {
@@ -633,6 +670,7 @@ func TestRecordRoutes(t *testing.T) {
 			rc.Got[len(rc.Got)-1] = -rc.Got[len(rc.Got)-1] - 5
 		}
 		res.Cases++
+		rings++
 		if len(act) < np && len(act) > 0 {
 			res.Nontrivial++
 		}
@@ -647,5 +685,4 @@ func TestRecordRoutes(t *testing.T) {
 	if err := w.Close(); err != nil && res.Fatal == "" {
 		res.Fatal = err.Error()
 	}
-	res.Write(t)
 }
